@@ -1,5 +1,5 @@
 //@ unit forloop
-//@ serves C05 C10 C02
+//@ serves C05 C08 C04 C10 C02
 //@ rlimit 30
 //@ include prelude/header.rs
 use vstd::std_specs::iter::*;
@@ -14,7 +14,6 @@ verus! {
 // ---------------- assumed environment of For::render_to (stand-ins; trusted) ----------------
 pub mod liquid_core_paths { }
 impl KString {
-    pub uninterp spec fn view(&self) -> Seq<char>;
     #[verifier::external_body]
     pub fn as_ref(&self) -> (r: KStringRef) ensures r.view() == self.view() { unimplemented!() }
 }
@@ -62,6 +61,8 @@ impl ValArray {
     pub uninterp spec fn ids(&self) -> Seq<VId>;
     #[verifier::external_body]
     pub fn len(&self) -> (r: usize) ensures r == self.ids().len(), r <= isize::MAX as usize { unimplemented!() }
+    #[verifier::external_body]
+    pub fn is_empty(&self) -> (r: bool) ensures r == (self.ids().len() == 0) { unimplemented!() }
     #[verifier::external_body]
     pub fn into_iter(self) -> (r: ValArrayIter) ensures r.ids() == self.ids() { unimplemented!() }
 }
@@ -150,12 +151,16 @@ impl From<&str> for KString {
 
 /// the per-iteration scope: a map name -> value identity, layered over the enclosing runtime
 pub struct RootMap { pub m: Ghost<Map<Seq<char>, VId>> }
+/// what can be bound in a scope: a borrowed view (`&forloop`, `&v`) or an owned/borrowed ValueCow
+pub trait HasVid { spec fn the_vid(self) -> VId; }
+impl<T: ValueView> HasVid for &T { open spec fn the_vid(self) -> VId { self.vid_of() } }
+impl HasVid for ValueCow { open spec fn the_vid(self) -> VId { self.vid() } }
 impl RootMap {
     #[verifier::external_body]
     pub fn new() -> (r: RootMap) ensures r.m@ == Map::<Seq<char>, VId>::empty() { unimplemented!() }
     #[verifier::external_body]
-    pub fn insert(&mut self, k: KStringRef, v: &dyn ValueView) -> (r: Option<u8>)
-        ensures final(self).m@ == old(self).m@.insert(k.view(), v.vid_of())
+    pub fn insert<V: HasVid>(&mut self, k: KStringRef, v: V) -> (r: Option<u8>)
+        ensures final(self).m@ == old(self).m@.insert(k.view(), v.the_vid())
     { unimplemented!() }
 }
 pub uninterp spec fn scope_ident(parent: RtId, m: Map<Seq<char>, VId>) -> RtId;
@@ -171,6 +176,65 @@ impl StackFrame {
     pub fn new<'a>(parent: &'a dyn Runtime, data: &'a RootMap) -> (r: ScopeFrame<'a>)
         ensures r.parent == parent, r.data == data
     { unimplemented!() }
+}
+/// partial templates by name (stand-in for runtime::PartialStore; `get` fails exactly when the name is unknown)
+/// what `name` resolves to in the store with identity `store`
+pub uninterp spec fn partial_named(store: Seq<int>, name: Seq<char>) -> Option<RId>;
+pub trait PartialStore {
+    spec fn id(&self) -> Seq<int>;
+    fn get(&self, name: &str) -> (r: Result<Box<dyn Renderable>>)
+        ensures r matches Ok(p) ==> partial_named(self.id(), name@) == Some(p.rid()),
+                r is Err ==> partial_named(self.id(), name@) is None;
+}
+/// the partial store a runtime (and every scope layered on it) hands out
+pub uninterp spec fn store_of(rt: RtId) -> Seq<int>;
+impl<'a> ScopeFrame<'a> {
+    #[verifier::external_body]
+    pub fn partials(&self) -> (r: &dyn PartialStore) ensures r.id() == store_of(self.parent.ident()) { unimplemented!() }
+}
+
+/// render's scope: a fresh global layer over a sandbox that never consults its parent for variables (unit `stack`):
+/// its identity is a function of the bound arguments only - NOT of the caller's scope
+pub uninterp spec fn isolated_ident(m: Map<Seq<char>, VId>) -> RtId;
+pub struct Sandboxed<'a> { pub parent: &'a dyn Runtime, pub data: &'a RootMap }
+pub struct SandboxedStackFrame;
+impl SandboxedStackFrame {
+    #[verifier::external_body]
+    pub fn new<'a>(parent: &'a dyn Runtime, data: &'a RootMap) -> (r: Sandboxed<'a>) ensures r.parent == parent, r.data == data { unimplemented!() }
+}
+pub struct IsolatedFrame<'a> { pub inner: Sandboxed<'a>, pub regs: Registers }
+pub struct GlobalFrame;
+impl GlobalFrame {
+    #[verifier::external_body]
+    pub fn new<'a>(inner: Sandboxed<'a>) -> (r: IsolatedFrame<'a>) ensures r.inner == inner { unimplemented!() }
+}
+impl<'a> Runtime for IsolatedFrame<'a> {
+    open spec fn ident(&self) -> RtId { isolated_ident(self.inner.data.m@) }
+    #[verifier::external_body]
+    fn registers(&self) -> (r: &Registers) { unimplemented!() }
+}
+impl<'a> IsolatedFrame<'a> {
+    #[verifier::external_body]
+    pub fn partials(&self) -> (r: &dyn PartialStore) ensures r.id() == store_of(self.inner.parent.ident()) { unimplemented!() }
+}
+impl ValueCow {
+    #[verifier::external_body]
+    pub fn is_scalar(&self) -> bool { unimplemented!() }
+    #[verifier::external_body]
+    pub fn source(&self) -> String { unimplemented!() }
+    #[verifier::external_body]
+    pub fn to_kstr(&self) -> (r: KStringCow) ensures r.chars_view() == vid_text(self.vid()) { unimplemented!() }
+    /// `liquid_core::ValueCow::Borrowed(&x)`
+    #[verifier::external_body]
+    pub fn Borrowed<T: ValueView>(v: &T) -> (r: ValueCow) ensures r.vid() == v.vid_of() { unimplemented!() }
+}
+/// the text a (scalar) value spells: the partial's name
+pub uninterp spec fn vid_text(v: VId) -> Seq<char>;
+impl Error {
+    #[verifier::external_body]
+    pub fn with_msg(msg: &'static str) -> Error { unimplemented!() }
+    #[verifier::external_body]
+    pub fn context<K, V>(self, key: K, value: V) -> Error { unimplemented!() }
 }
 /// `runtime.try_get(&[Scalar::new("forloop")])`: the enclosing loop's forloop object, if any
 pub uninterp spec fn parent_forloop(rt: RtId) -> Option<VId>;
@@ -486,6 +550,178 @@ impl TableRow {
         assert(writer.log@ =~= log0 + a + b + d);
         self.lemma_cell_step(rt, s, c, k, old(writer).log@, log0, writer.log@, scope.ident());
     }
+//@ end
+}
+
+// ---------------- include / render (C08) ----------------
+/// the arguments `k: v` of include / render, evaluated left to right in the CALLER's scope with the non-failing lookup;
+/// None = one of them does not exist
+spec fn args_map(vars: Seq<(KString, Expression)>, rt: &dyn Runtime, k: int, base: Map<Seq<char>, VId>) -> Option<Map<Seq<char>, VId>>
+    decreases k
+{
+    if k <= 0 { Some(base) }
+    else { match args_map(vars, rt, k - 1, base) {
+        None => None,
+        Some(m) => match vars[k - 1].1.denotes(rt) { None => None, Some(v) => Some(m.insert(vars[k - 1].0.view(), v)) },
+    } }
+}
+//@ item crates/lib/src/stdlib/tags/include_tag.rs :: struct Include
+//@ kind struct
+//@ end
+impl Include {
+//@ item crates/lib/src/stdlib/tags/include_tag.rs :: impl Renderable for Include::render_to
+//@ props C08 C04 C10 C02
+//@ safety C02 C08
+//@ sig fn render_to(&self, writer: &mut Sink, runtime: &dyn Runtime) -> (r: Result<()>)
+//@ spec
+    requires !old(writer).failed@,
+    ensures
+        sink_safe(*old(writer), *final(writer), r),                                                   // [C10:include_failed_sink_is_error]
+        // include renders the named partial once, in a plain scope (its arguments) layered over the CALLER's runtime
+        r is Ok ==> (self.partial.denotes(runtime) matches Some(pv)
+            && args_map(self.vars@, runtime, self.vars@.len() as int, Map::empty()) matches Some(m)
+            && partial_named(store_of(runtime.ident()), vid_text(pv)) matches Some(p)
+            && final(writer).log@ == old(writer).log@.push(Ev::Child(p, scope_ident(runtime.ident(), m)))),      // [C08:include_shares_the_callers_scope] [C04:include_arguments_form_the_innermost_scope]
+        // a missing partial is an error, never a silent blank
+        (self.partial.denotes(runtime) matches Some(pv) && partial_named(store_of(runtime.ident()), vid_text(pv)) is None) ==> r is Err,   // [C08:missing_partial_is_an_error]
+//@ edit <<std::collections::HashMap::new()>> => <<RootMap::new()>> why: std HashMap is outside Verus; stand-in map with the same insert contract
+//@ edit <<for (id, val) in &self.vars>> => <<for (id, val) in it: &self.vars>> why: names Verus' ghost iterator so that the invariant can refer to the position
+//@ loop 0 kind=for
+    invariant
+        0 <= it.index@ <= self.vars@.len(),
+        !writer.failed@, writer.log@ == old(writer).log@,
+        args_map(self.vars@, runtime, it.index@, Map::empty()) == Some(pass_through.m@),
+//@ closure 0 arg_of=ok_or_else params=
+|| -> (e: Error)
+//@ closure 1 arg_of=trace_with params=
+|| -> (k: KString)
+//@ closure 2 arg_of=trace_with params=
+|| -> (k: KString)
+//@ closure 3 arg_of=context_key_with params=
+|| -> (k: KString)
+//@ closure 4 arg_of=value_with params=
+|| -> (k: KString)
+//@ end
+}
+
+//@ item crates/lib/src/stdlib/tags/render_tag.rs :: struct Render
+//@ kind struct
+//@ end
+impl Render {
+    /// the partial `render` runs: the one named by the expression, or (fallback `name.liquid`) one found under another spelling
+    spec fn partial_ok(&self, rt: &dyn Runtime, p: RId) -> bool {
+        match self.partial.denotes(rt) {
+            None => false,
+            Some(pv) => match partial_named(store_of(rt.ident()), vid_text(pv)) {
+                Some(p0) => p == p0,
+                None => exists|q: Seq<char>| partial_named(store_of(rt.ident()), q) == Some(p),
+            },
+        }
+    }
+    /// iteration i of `render ... for xs as x`: the partial in an ISOLATED scope holding the arguments, a truthful forloop
+    /// (no parentloop: the caller's loops are invisible) and the i-th element
+    spec fn for_iteration(&self, p: RId, args: Map<Seq<char>, VId>, var: Seq<char>, s: Seq<VId>, i: int) -> Ev {
+        Ev::Child(p, isolated_ident(args.insert("forloop"@, truthful_forloop(i, s.len() as int, None)).insert(var, s[i])))
+    }
+    spec fn good_event(&self, rt: &dyn Runtime, m: Map<Seq<char>, VId>, var: Seq<char>, s: Seq<VId>, i: int, e: Ev) -> bool {
+        exists|p: RId| #[trigger] self.partial_ok(rt, p) && e == self.for_iteration(p, m, var, s, i)
+    }
+    spec fn good_trace(&self, rt: &dyn Runtime, m: Map<Seq<char>, VId>, var: Seq<char>, s: Seq<VId>, trace: Seq<Ev>) -> bool {
+        forall|i: int| 0 <= i < trace.len() ==> #[trigger] self.good_event(rt, m, var, s, i, trace[i])
+    }
+//@ item crates/lib/src/stdlib/tags/render_tag.rs :: impl Renderable for Render::render_to
+//@ props C08 C05 C10 C02
+//@ safety C02 C08
+//@ sig fn render_to(&self, writer: &mut Sink, runtime: &dyn Runtime) -> (r: Result<()>)
+//@ spec
+    requires !old(writer).failed@,
+    ensures
+        sink_safe(*old(writer), *final(writer), r),                                                   // [C10:render_failed_sink_is_error]
+        // plain render: the partial once, in a scope whose identity depends on the explicit arguments ONLY (never on the caller's scope)
+        (r is Ok && self.for_ is None) ==> (args_map(self.vars@, runtime, self.vars@.len() as int, Map::empty()) matches Some(m)
+            && self.partial.denotes(runtime) is Some
+            && exists|p: RId| #[trigger] self.partial_ok(runtime, p) && final(writer).log@ == old(writer).log@.push(Ev::Child(p, isolated_ident(m)))),       // [C08:render_starts_from_its_explicit_arguments_only]
+        // render-for: nothing for an empty collection; otherwise one isolated rendering per element, in order, each with a truthful forloop
+        (r is Ok && self.for_ is Some) ==> (self.for_.unwrap().0.denotes(runtime) matches Some(s) && (s.len() == 0 ==> final(writer).log@ == old(writer).log@)),   // [C08:render_for_empty_collection_renders_nothing]
+        (r is Ok && self.for_ is Some) ==> (self.for_.unwrap().0.denotes(runtime) matches Some(s) && (s.len() > 0 ==> (
+            args_map(self.vars@, runtime, self.vars@.len() as int, Map::empty()) matches Some(m) && self.partial.denotes(runtime) is Some
+            && exists|trace: Seq<Ev>| #[trigger] self.good_trace(runtime, m, self.for_.unwrap().1.view(), s, trace)
+                && 1 <= trace.len() <= s.len() && final(writer).log@ == old(writer).log@ + trace))),   // [C08:render_for_binds_each_element_in_isolation] [C05:render_for_visits_elements_in_order_with_truthful_forloop]
+//@ editall <<std::collections::HashMap::new()>> => <<RootMap::new()>> why: std HashMap is outside Verus; stand-in map with the same insert contract
+//@ editall <<for (id, val) in &self.vars>> => <<for (id, val) in it2: &self.vars>> why: names Verus' ghost iterator so that the invariant can refer to the position
+//@ edit <<for (i, v) in array.into_iter().enumerate()>> => <<for (i, v) in it: array.into_iter().enumerate()>> why: names Verus' ghost iterator so that the invariant can refer to the position
+//@ ghost before <<if !array.is_empty() {>>
+    let ghost sel = Ghost(array.ids()); let ghost mut trace: Seq<Ev> = Seq::<Ev>::empty();
+//@ loop 0 kind=for
+    invariant_except_break
+        writer.log@ == old(writer).log@ + trace, trace.len() == it.index@,
+    invariant
+        !writer.failed@, 0 <= it.index@ <= len, len == sel@.len(), 0 < len <= isize::MAX as usize,
+        self.for_ is Some, self.for_.unwrap().1 == *var_name,
+        self.for_.unwrap().0.denotes(runtime) == Some(sel@),
+        self.partial.denotes(runtime) == Some(value.vid()), name.view() == vid_text(value.vid()),
+        it.seq().len() == len,
+        forall|j: int| 0 <= j < len ==> (#[trigger] it.seq()[j]).0 == j && it.seq()[j].1.vid() == sel@[j],
+        it.index@ > 0 ==> (args_map(self.vars@, runtime, self.vars@.len() as int, Map::empty()) matches Some(m)
+            && self.good_trace(runtime, m, var_name.view(), sel@, trace)),
+    ensures
+        args_map(self.vars@, runtime, self.vars@.len() as int, Map::empty()) matches Some(m)
+            && 1 <= trace.len() <= len && writer.log@ == old(writer).log@ + trace
+            && self.good_trace(runtime, m, var_name.view(), sel@, trace),
+//@ loop 1 kind=for
+    invariant
+        0 <= it2.index@ <= self.vars@.len(),
+        !writer.failed@, writer.log@ == old(writer).log@ + trace,
+        args_map(self.vars@, runtime, it2.index@, Map::empty()) == Some(root.m@),
+//@ loop 2 kind=for
+    invariant
+        0 <= it2.index@ <= self.vars@.len(),
+        !writer.failed@, writer.log@ == old(writer).log@,
+        args_map(self.vars@, runtime, it2.index@, Map::empty()) == Some(root.m@),
+//@ ghost after <<.value_with(|| format!("{}", i + 1).into())?;>>
+    proof {
+        let m0 = args_map(self.vars@, runtime, self.vars@.len() as int, Map::empty()).unwrap();
+        let e = Ev::Child(partial.rid(), scope.ident());
+        assert(self.partial_ok(runtime, partial.rid()));
+        assert(e == self.for_iteration(partial.rid(), m0, var_name.view(), sel@, it.index@));
+        assert(self.good_event(runtime, m0, var_name.view(), sel@, it.index@, e));
+        let old_trace = trace;
+        trace = trace.push(e);
+        assert(self.good_trace(runtime, m0, var_name.view(), sel@, trace)) by {
+            assert forall|i: int| 0 <= i < trace.len() implies #[trigger] self.good_event(runtime, m0, var_name.view(), sel@, i, trace[i]) by {
+                if i < old_trace.len() { assert(trace[i] == old_trace[i]); }
+            }
+        }
+        assert(writer.log@ =~= old(writer).log@ + trace);
+    }
+//@ ghost after <<.value_with(|| name.to_string().into())?;>>
+    proof { assert(self.partial_ok(runtime, partial.rid())); }
+//@ closure 0 arg_of=trace_with params=
+|| -> (k: KString)
+//@ closure 1 arg_of=ok_or_else params=
+|| -> (e: Error)
+//@ closure 2 arg_of=or_else params=_
+|_e: Error| -> (r2: Result<Box<dyn Renderable>>)
+    ensures r2 matches Ok(p) ==> (exists|q: Seq<char>| partial_named(store_of(runtime.ident()), q) == Some(p.rid()))
+//@ closure 3 arg_of=trace_with params=
+|| -> (k: KString)
+//@ closure 4 arg_of=trace_with params=
+|| -> (k: KString)
+//@ closure 5 arg_of=value_with params=
+|| -> (k: KString) requires i < isize::MAX as usize
+//@ closure 6 arg_of=ok_or_else params=
+|| -> (e: Error)
+//@ closure 7 arg_of=or_else params=_
+|_e: Error| -> (r2: Result<Box<dyn Renderable>>)
+    ensures r2 matches Ok(p) ==> (exists|q: Seq<char>| partial_named(store_of(runtime.ident()), q) == Some(p.rid()))
+//@ closure 8 arg_of=trace_with params=
+|| -> (k: KString)
+//@ closure 9 arg_of=trace_with params=
+|| -> (k: KString)
+//@ closure 10 arg_of=context_key_with params=
+|| -> (k: KString)
+//@ closure 11 arg_of=value_with params=
+|| -> (k: KString)
 //@ end
 }
 
